@@ -14,8 +14,14 @@ def run(chk):
     wd = vlib.workdir("C13")
     binary = vlib.harness_build()
     thorough = chk.tier == "thorough"
+    # the reference decoder itself satisfies what the property demands on every generated case (I-spec => P_C13)
+    rm = vlib.tlc("codec/MC_Tagged.tla", workers=1, xmx="10g", env={"GEN_WHICH": "C13", "GEN_THOROUGH": "1" if thorough else "0", "GEN_BIG": "0"}, timeout=3000)
+    vlib.tlc_must_pass(rm, "MC_Tagged")
+    if rm.violated:
+        raise vlib.ToolError("the reference decoder violates %s" % rm.violated)
+    chk.add_tlc("MC_Tagged(C13): every re-assembled case a state; invariant PHolds on the reference decoder", rm)
     cases = cc.gen_c13(chk, "C13", thorough, workers=vlib.NCPU if thorough else 8)
-    cases = [c for c in cases if c["cls"] != "nested"]
+    cases = [c for c in cases if c["cls"] not in ("nested", "nestedtail")]
     # impl -> spec: random permutations of big packets, judged against the reference decoder
     layout = cc.export_layout(wd)
     rnd = cc.random_cases(binary, layout, chk.seed, 100000 if thorough else 3000, "rand", wd, "perm-rand")
